@@ -1,0 +1,16 @@
+//go:build verif
+
+package runner
+
+import (
+	"go/token"
+
+	"honnef.co/go/tools/analysis/lint"
+)
+
+// VerifC10SerializeDirective calls serializeDirective, for the
+// verification harness (property C10). Add-only; compiled only with
+// -tags verif.
+func VerifC10SerializeDirective(dir lint.Directive, fset *token.FileSet) SerializedDirective {
+	return serializeDirective(dir, fset)
+}
